@@ -193,6 +193,11 @@ func (s *Server) onList(ctx *gin.Context) {
 		end = &tmp
 	}
 
+	if start != nil && end != nil && end.Before(*start) {
+		s.writeError(ctx, http.StatusBadRequest, fmt.Errorf("invalid end: end is before start"))
+		return
+	}
+
 	segments, err := recordstore.FindSegments(pathConf, pathName, start, end)
 	if err != nil {
 		if errors.Is(err, recordstore.ErrNoSegmentsFound) {
